@@ -31,7 +31,9 @@ FLAG_ITEMS = [['-l'], ['-b'], ['-v'], ['-z'], ['-r'], ['--line-by-line'], ['--bu
               ['--prof-i']]
 REST_TOKENS = ['-l', '-v', '-o', 'out.x', '--outfile=zzz', '-h', '--help', '-V', '--version', '-x', '--unknown', 'a',
                'b c', '', '-5', '-i', '--line', '--no', '-lvx', '=', '-', '--outfile', '-u', '-b', '-p', 'x.py', '-z',
-               '--unit=3', '-o=1', '-ofoo', '-.5', '--builtin', '-lq']
+               '--unit=3', '-o=1', '-ofoo', '-.5', '--builtin', '-lq',
+               # tokens other argparse conventions would treat specially (file expansion, other prefix characters)
+               '@args.txt', '@nofile', '@', '+l', '/v']
 AMBIG_TOKENS = ['--p', '--prof', '--pro=3', '--o', '--out', '--ou', '--=', '--s', '--v', '--r', '--pr', '--outfile=', '--l']
 
 
